@@ -15,12 +15,13 @@ Record reader : Type := {
   r_pos : N;        (* current_buffer_byte_pos *)
   r_len : N;        (* current_buffer_byte_len *)
   r_prev : cp;
+  r_buf : text;     (* the characters of the current buffer, i.e. [current_text()] = text[pos .. pos+len] *)
   r_rest : text     (* current :: next :: chars *)
 }.
 
 (** [Reader::new_with_range(text, range)] *)
 Definition reader_new_at (t : text) (start : N) : reader :=
-  {| r_total := bytes t; r_start := start; r_pos := 0; r_len := 0; r_prev := EOF; r_rest := t |}.
+  {| r_total := bytes t; r_start := start; r_pos := 0; r_len := 0; r_prev := EOF; r_buf := []; r_rest := t |}.
 
 (** [Reader::new] *)
 Definition reader_new (t : text) : reader := reader_new_at t 0.
@@ -38,12 +39,16 @@ Definition bump (r : reader) : reader :=
   else {| r_total := r_total r; r_start := r_start r; r_pos := r_pos r;
           r_len := r_len r + blen (current_char r);
           r_prev := current_char r;
+          r_buf := r_buf r ++ [current_char r];
           r_rest := tl (r_rest r) |}.
 
 (** [fn reset_buff] *)
 Definition reset_buff (r : reader) : reader :=
   {| r_total := r_total r; r_start := r_start r; r_pos := r_pos r + r_len r; r_len := 0;
-     r_prev := r_prev r; r_rest := r_rest r |}.
+     r_prev := r_prev r; r_buf := []; r_rest := r_rest r |}.
+
+(** [fn current_text] *)
+Definition current_text (r : reader) : text := r_buf r.
 
 (** [fn current_range] as (start_offset, length) *)
 Definition current_range (r : reader) : N * N := (r_start r + r_pos r, r_len r).
@@ -91,7 +96,8 @@ Definition is_eof_orig (r : reader) : bool := current_char r =? EOF.
 Definition bump_orig (r : reader) : reader :=
   if current_char r =? EOF then r
   else {| r_total := r_total r; r_start := r_start r; r_pos := r_pos r;
-          r_len := r_len r + blen (current_char r); r_prev := current_char r; r_rest := tl (r_rest r) |}.
+          r_len := r_len r + blen (current_char r); r_prev := current_char r; r_buf := r_buf r ++ [current_char r];
+          r_rest := tl (r_rest r) |}.
 
 (** well-formedness: the three parts account for the whole text *)
 Definition reader_wf (r : reader) : Prop := r_pos r + r_len r + bytes (r_rest r) = r_total r.
